@@ -89,6 +89,31 @@ Theorem C08_capacity_bounds : forall c osp olen,
   1 <= c_max_len c -> olen_ok c osp olen = true -> 1 <= olen <= c_max_len c.
 Proof. exact olen_ok_bounds. Qed.
 
+(* Unless the exact quotient is within 1e-9 of an integer only the documented capacity is accepted from the
+   implementation, and at the boundary between the two formulas -- input period EQUAL to the resampling period --
+   the documented capacity is ceil(max_age) (clamped) for every period, not ceil(period_s * max_age). *)
+Theorem C08_capacity_is_documented : forall c osp olen,
+  olen_ok c osp olen = true ->
+  let a := fst (len_quot c osp) in let b := snd (len_quot c osp) in
+  a < (a mod b) * 1000000000 -> a < (b - a mod b) * 1000000000 ->
+  olen = doc_len c osp.
+Proof. exact olen_ok_is_documented. Qed.
+
+Theorem C08_capacity_equal_period : forall c,
+  0 < c_period c -> 0 < c_age_d c ->
+  doc_len c (c_period c) = clamp_len c (ceil_div (c_age_n c) (c_age_d c)).
+Proof. exact doc_len_equal_period. Qed.
+
+Theorem C08_capacity_upsampling : forall c osp,
+  c_period c < osp -> doc_len c osp = clamp_len c (ceil_div (osp * c_age_n c) (1000000 * c_age_d c)).
+Proof. exact doc_len_upsampling. Qed.
+
+(* period 0.5 s, max_age 4, input period exactly 0.5 s: capacity 4 is accepted, 2 (= ceil(0.5*4)) is not *)
+Example C08_equal_period_example :
+  let c := mkC 500000 4 1 4 1024 in
+  doc_len c 500000 = 4 /\ olen_ok c 500000 4 = true /\ olen_ok c 500000 2 = false.
+Proof. vm_compute. repeat split; reflexivity. Qed.
+
 (* non-vacuity: period 1 s, max age 1.5, capacity 3; samples stamped 0.4 s, exactly T - 1.5 s (excluded),
    +1 us (included), a NaN, exactly T (included), T + 1 us (arrived early, excluded) *)
 Example C08_nonvacuous :
@@ -116,3 +141,6 @@ Print Assumptions C08_relevance_rounding.
 Print Assumptions C08_relevance_integral_age.
 Print Assumptions C08_estimate_spec.
 Print Assumptions C08_capacity_bounds.
+Print Assumptions C08_capacity_is_documented.
+Print Assumptions C08_capacity_equal_period.
+Print Assumptions C08_capacity_upsampling.
